@@ -290,6 +290,7 @@ func nativeReplayOpt(dir, harness string, paths []string, race bool) (map[string
 		}
 		if usesLock {
 			ns = lockCallRe.ReplaceAllString(ns, "verifLock(&$1)")
+			ns = rlockCallRe.ReplaceAllString(ns, "verifRLock(&$1)")
 		}
 		if usesAtomic {
 			ns = strings.ReplaceAll(ns, "atomic.LoadUint32(", "verifAtomicLoadU32(")
@@ -371,6 +372,7 @@ func nativeReplayOpt(dir, harness string, paths []string, race bool) (map[string
 }
 
 var lockCallRe = regexp.MustCompile(`\b([A-Za-z_][A-Za-z0-9_.]*\.mu)\.Lock\(\)`)
+var rlockCallRe = regexp.MustCompile(`\b([A-Za-z_][A-Za-z0-9_.]*\.mu)\.RLock\(\)`)
 
 // compareObserved checks the values the executor predicted under the witness model against the
 // values the native run observed.
